@@ -48,10 +48,12 @@ theorem C18_bmp_rt (k : Kind) (inl : Bool) (w h : Nat) (data name : Bytes) (exis
   refine ⟨nm, file, ?_, hfresh, ?_, hread⟩
   · unfold exportImage
     simp only [hdct, hjpx, hjb, if_false]
-    have h3 : w * 3 = 3 * w := Nat.mul_comm w 3
     cases k <;> cases inl <;>
       simp only [csOfKind, bpcOfKind, bitsOfKind, rowBytes, isRGB, isGray] at hsave ⊢ <;>
-      simp [withName, hnm, hsave, h3]
+      simp only [(bmpArgs_bit1 w).1, (bmpArgs_bit1 w).2, (bmpArgs_rgb w).1, (bmpArgs_rgb w).2, (bmpArgs_gray w).1,
+        (bmpArgs_gray w).2] <;>
+      simp (config := { decide := true }) only [if_true, if_false] <;>
+      exact withName_ok _ _ _ _ _ _ hnm hsave
   · rw [hj]; exact candidate_suffix name extBmp j
 
 /-- The row-wise reading of the samples used above is the pixel-by-pixel one: pixel (r, c) of a
@@ -169,109 +171,53 @@ example :
 
 /-! ## Inline image data is captured completely, the rest of the stream is untouched -/
 
-/-- The end-of-line forms a writer puts between the data and `EI`. -/
-def IsEol (sep : Bytes) : Prop := sep = [10] ∨ sep = [13, 10] ∨ sep = [13]
-
-/-- **inline_scan.** For data (with its end-of-line) that does not contain `EI`+white space, the
-    scanner consumes exactly `data EOL EI ws` — the parser continues with `rest`, the operators
-    after the image — and returns `data ++ EOL` with one end-of-line removed. -/
-theorem C18_inline_scan (data sep rest : Bytes) (ws : UInt8) (hsep : IsEol sep) (hws : isSpace ws = true)
-    (hno : NoMarker (data ++ sep)) :
-    getInlineData EI (data ++ sep ++ EI ++ ws :: rest) =
-      some (stripEol (data ++ sep), (data ++ sep).length + 3) := by
-  have hp := scan_prefix (data ++ sep) 0 [] (EI ++ ws :: rest) 0 (by decide)
-    ⟨fun h => absurd h (by decide), fun h => absurd h (by decide)⟩ (by simpa using hno)
-  obtain ⟨hscan, _, hle⟩ := hp
-  -- the state after the end-of-line is 0
-  have hzero : run 0 (data ++ sep) = 0 := by
-    have hlast : ∃ init c, data ++ sep = init ++ [c] ∧ (c = 10 ∨ c = 13) := by
-      rcases hsep with rfl | rfl | rfl
-      · exact ⟨data, 10, rfl, Or.inl rfl⟩
-      · exact ⟨data ++ [13], 10, by simp, Or.inl rfl⟩
-      · exact ⟨data, 13, rfl, Or.inr rfl⟩
-    obtain ⟨init, c, hinit, hc⟩ := hlast
-    have hp2 := scan_prefix init 0 [] [] 0 (by decide)
-      ⟨fun h => absurd h (by decide), fun h => absurd h (by decide)⟩
-      (by
-        intro pre post c' hc' heq
-        apply hno pre (post ++ [c]) c' hc'
-        rw [hinit]
-        simp only [List.nil_append] at heq
-        rw [heq]; simp)
-    rw [hinit, run_snoc] at hle ⊢
-    exact step_eol _ c hp2.2.2 hc hle
-  unfold getInlineData
-  have hinput : data ++ sep ++ EI ++ ws :: rest = (data ++ sep) ++ (EI ++ ws :: rest) := by simp
-  rw [hinput, hscan, hzero]
-  have : EI ++ ws :: rest = 69 :: 73 :: ws :: rest := rfl
-  rw [this, scan_marker ws rest _ hws]
-  simp only [Nat.zero_add, EI_length, Bool.false_eq_true, if_false]
-  have htake : List.take ((data ++ sep).length + 3) (data ++ sep ++ 69 :: 73 :: ws :: rest) =
-      (data ++ sep) ++ [69, 73, ws] := by
-    have : data ++ sep ++ 69 :: 73 :: ws :: rest = ((data ++ sep) ++ [69, 73, ws]) ++ rest := by simp
-    rw [this]
-    have hl : (data ++ sep).length + 3 = ((data ++ sep) ++ [69, 73, ws]).length := by simp <;> omega
-    rw [hl, List.take_left]
-  rw [htake]
-  have : ((data ++ sep) ++ [69, 73, ws]).length - (2 + 1) = (data ++ sep).length := by simp <;> omega
-  rw [this, List.take_left]
+/-- **inline_scan.** For data (with its end-of-line: LF, CR LF or CR) that does not contain
+    `EI`+white space, and for any size hint, the scanner consumes exactly `data EOL EI ws` — the
+    parser continues with `rest`, the operators after the image — and what it returns is determined
+    by `data ++ EOL` alone (`finish`: cut at the hinted size, or strip one end-of-line). -/
+theorem C18_inline_scan (L : Option Nat) (data sep rest : Bytes) (ws : UInt8) (hsep : IsEol sep)
+    (hws : isSpace ws = true) (hno : NoMarker (data ++ sep)) :
+    getInlineDataLen EI L (data ++ sep ++ EI ++ ws :: rest) = finish L (data ++ sep) ((data ++ sep).length + 3) :=
+  getInlineDataLen_marker L data sep rest ws hsep hws hno
 
 /-- The same when `EI` is the last token of the content stream. -/
-theorem C18_inline_scan_eof (data sep : Bytes) (hsep : IsEol sep) (hno : NoMarker (data ++ sep)) :
-    getInlineData EI (data ++ sep ++ EI) = some (stripEol (data ++ sep), (data ++ sep).length + 2) := by
-  have hp := scan_prefix (data ++ sep) 0 [] EI 0 (by decide)
-    ⟨fun h => absurd h (by decide), fun h => absurd h (by decide)⟩ (by simpa using hno)
-  obtain ⟨hscan, _, hle⟩ := hp
-  have hzero : run 0 (data ++ sep) = 0 := by
-    have hlast : ∃ init c, data ++ sep = init ++ [c] ∧ (c = 10 ∨ c = 13) := by
-      rcases hsep with rfl | rfl | rfl
-      · exact ⟨data, 10, rfl, Or.inl rfl⟩
-      · exact ⟨data ++ [13], 10, by simp, Or.inl rfl⟩
-      · exact ⟨data, 13, rfl, Or.inr rfl⟩
-    obtain ⟨init, c, hinit, hc⟩ := hlast
-    have hp2 := scan_prefix init 0 [] [] 0 (by decide)
-      ⟨fun h => absurd h (by decide), fun h => absurd h (by decide)⟩
-      (by
-        intro pre post c' hc' heq
-        apply hno pre (post ++ [c]) c' hc'
-        rw [hinit]
-        simp only [List.nil_append] at heq
-        rw [heq]; simp)
-    rw [hinit, run_snoc] at hle ⊢
-    exact step_eol _ c hp2.2.2 hc hle
-  unfold getInlineData
-  rw [hscan, hzero]
-  have hm : scan EI 0 EI (0 + (data ++ sep).length) = some (0 + (data ++ sep).length + 2, true) :=
-    scan_marker_eof _
-  rw [hm]
-  simp only [Nat.zero_add, if_true, EI_length, Nat.add_zero]
-  have hl : (data ++ sep).length + 2 = ((data ++ sep) ++ EI).length := by simp [EI_length] <;> omega
-  rw [hl, List.take_length]
-  have h2 : ((data ++ sep) ++ EI).length - 2 = (data ++ sep).length := by simp [EI_length] <;> omega
-  rw [h2, List.take_left]
+theorem C18_inline_scan_eof (L : Option Nat) (data sep : Bytes) (hsep : IsEol sep) (hno : NoMarker (data ++ sep)) :
+    getInlineDataLen EI L (data ++ sep ++ EI) = finish L (data ++ sep) ((data ++ sep).length + 2) :=
+  getInlineDataLen_marker_eof L data sep hsep hno
 
-/-- The full statement of the property for inline data. -/
-def C18_inline_capture_statement : Prop :=
+/-- **inline_capture.** When the dictionary tells the size of the data (unfiltered image: the hint
+    is `data.length`), the captured bytes are exactly `data` — whatever its last bytes are, for
+    every end-of-line form — and exactly `data EOL EI ws` is consumed. -/
+theorem C18_inline_capture (data sep rest : Bytes) (ws : UInt8) (hsep : IsEol sep)
+    (hws : isSpace ws = true) (hno : NoMarker (data ++ sep)) :
+    getInlineDataLen EI (some data.length) (data ++ sep ++ EI ++ ws :: rest) =
+      some (data, (data ++ sep).length + 3) := by
+  rw [getInlineDataLen_marker _ data sep rest ws hsep hws hno]
+  exact finish_exact data sep _ hsep
+
+theorem C18_inline_capture_eof (data sep : Bytes) (hsep : IsEol sep) (hno : NoMarker (data ++ sep)) :
+    getInlineDataLen EI (some data.length) (data ++ sep ++ EI) = some (data, (data ++ sep).length + 2) := by
+  rw [getInlineDataLen_marker_eof _ data sep hsep hno]
+  exact finish_exact data sep _ hsep
+
+/-- The full statement for payloads whose size the dictionary does not tell (filtered data). -/
+def C18_inline_capture_nohint_statement : Prop :=
   ∀ (data sep rest : Bytes) (ws : UInt8), IsEol sep → isSpace ws = true → NoMarker (data ++ sep) →
-    getInlineData EI (data ++ sep ++ EI ++ ws :: rest) = some (data, (data ++ sep).length + 3)
+    getInlineDataLen EI none (data ++ sep ++ EI ++ ws :: rest) = some (data, (data ++ sep).length + 3)
 
-/-- **inline_capture (partial).** The captured bytes are exactly `data` and exactly
-    `data EOL EI ws` is consumed — except when the data ends in CR and the writer's end-of-line is
-    a bare LF (open finding `inline-data-trailing-cr`). -/
-theorem C18_inline_capture_partial (data sep rest : Bytes) (ws : UInt8) (hsep : IsEol sep)
+/-- **inline_capture without a size (partial).** The captured bytes are exactly the payload unless
+    it ends in CR and the writer's end-of-line is a bare LF (open finding `inline-data-trailing-cr`,
+    now restricted to filtered payloads). -/
+theorem C18_inline_capture_nohint_partial (data sep rest : Bytes) (ws : UInt8) (hsep : IsEol sep)
     (hws : isSpace ws = true) (hno : NoMarker (data ++ sep))
     (hcr : ¬ (sep = [10] ∧ data.getLast? = some 13)) :
-    getInlineData EI (data ++ sep ++ EI ++ ws :: rest) = some (data, (data ++ sep).length + 3) := by
-  rw [C18_inline_scan data sep rest ws hsep hws hno]
-  congr 2
-  rcases hsep with rfl | rfl | rfl
-  · exact stripEol_lf data (fun h => hcr ⟨rfl, h⟩)
-  · exact stripEol_crlf data
-  · exact stripEol_cr data
+    getInlineDataLen EI none (data ++ sep ++ EI ++ ws :: rest) = some (data, (data ++ sep).length + 3) := by
+  rw [getInlineDataLen_marker _ data sep rest ws hsep hws hno]
+  exact finish_none_strip data sep _ hsep hcr
 
-/-- Counter-example to the full statement (as the pinned and the repaired code behave): data `A CR`
-    written as `A CR LF EI SP` comes back as `A`. -/
-theorem C18_inline_trailing_cr_cex : ¬ C18_inline_capture_statement := by
+/-- Counter-example to the statement without a size: payload `A CR` written as `A CR LF EI SP`
+    comes back as `A`. -/
+theorem C18_inline_trailing_cr_cex : ¬ C18_inline_capture_nohint_statement := by
   intro h
   have := h [65, 13] [10] [] 32 (Or.inl rfl) (by decide)
     (by
@@ -282,6 +228,10 @@ theorem C18_inline_trailing_cr_cex : ¬ C18_inline_capture_statement := by
       subst this
       simp at heq)
   revert this
+  decide +kernel
+
+/-- Non-vacuity: with the size hint, data ending in CR before a bare LF is captured exactly. -/
+example : getInlineDataLen EI (some 2) ([65, 13] ++ [10] ++ EI ++ 32 :: [81]) = some ([65, 13], 6) := by
   decide +kernel
 
 /-- Non-vacuity of the hypotheses: binary data containing `E`, `I`, `EI` without white space after
